@@ -11,7 +11,6 @@ func genCascade(r *rng, i int) *Spec      { return genSmoke(r) }
 func genOffline(r *rng, i int) *Spec      { return genSmoke(r) }
 func genDisk(r *rng, i int) *Spec         { return genSmoke(r) }
 func genOptimization(r *rng, i int) *Spec { return genSmoke(r) }
-func genChaos(r *rng, i int, tier string) *Spec { return genSmoke(r) }
 
 
 func (s *Sim) pilotCall(owner, key string) {}
